@@ -167,6 +167,58 @@ func ruleCommitAll(rule string) RuleFn {
 			okG = okG && in
 		}
 		c.Check(okG, rule, "Commit forwards every member of every staged group", "for k, vs := range sr.groups: for _, v := range vs: submitGroupedValue(k.group, k.t, v)", "not every staged group member is forwarded (or not under its own key): members are lost on commit", nil, nil)
+		// committed before anyone is told: the callback of an execution is deferred in the frame that also commits the
+		// staged results, so it fires after the commit. A callback deferred in an inner frame (a shared "run and
+		// extract" helper) fires while the results are still staged: an Invoke made from the callback sees the
+		// container without the members of the constructor that has just run
+		for _, f := range c.P.Funcs {
+			if f.Pkg != c.P.Dig {
+				continue
+			}
+			var commits []ssa.Instruction
+			an.Instrs(f, func(in ssa.Instruction) {
+				if k, ok := in.(ssa.CallInstruction); ok && an.CalleeName(k) == "(*dig.stagingContainerWriter).Commit" {
+					commits = append(commits, in)
+				}
+			})
+			if len(commits) == 0 {
+				continue
+			}
+			top := f
+			for top.Parent() != nil {
+				top = top.Parent()
+			}
+			var walk func(g *ssa.Function)
+			walk = func(g *ssa.Function) {
+				an.Instrs(g, func(in ssa.Instruction) {
+					d, ok := in.(*ssa.Defer)
+					if !ok {
+						return
+					}
+					cl := an.StaticCallee(d)
+					if cl == nil || len(an.Sinks(cl, "Callback")) == 0 {
+						return
+					}
+					good := false
+					if g == f {
+						hit, _ := an.PathTo(f, d, an.IsInstr(commits[0]), nil)
+						good = hit != nil
+					} else {
+						// the commit sits in a literal nested in the deferring frame: it is over when that frame ends
+						for a := f.Parent(); a != nil; a = a.Parent() {
+							if a == g {
+								good = true
+							}
+						}
+					}
+					c.Check(good, rule, "the callback of "+an.ShortName(top)+" fires after the staged results were committed", "deferred in the frame that commits", "the callback is deferred in "+an.ShortName(g)+", the staged results are committed in "+an.ShortName(f)+" after that frame has returned: the callback runs while the results are still staged, and an Invoke made from it (a soft group consumer, for one) misses the members of the constructor that has just been executed", d, nil)
+				})
+				for _, a := range g.AnonFuncs {
+					walk(a)
+				}
+			}
+			walk(top)
+		}
 		// what is staged for a group key only ever grows: every write to stagingContainerWriter.groups stores
 		// append(<the list already staged under that key>, ...) - an assignment of a fresh list drops the members the
 		// same constructor staged for that key before (a plain member and a flattened slice share one key)
